@@ -190,79 +190,140 @@ Section Step4.
 End Step4.
 
 (* ---------- find_smallest ---------- *)
-Definition fs_inner (cc : list bool) (l : list (nat * Z)) (m : Z) : Z :=
-  fold_left (fun (m' : Z) (jx : nat * Z) => let (j, x) := jx in
-               if negb (nth j cc false) && Z.ltb x m' then x else m') l m.
+(* result r of a "running minimum" fold started from m over a segment whose candidate values are S *)
+Definition fs_ok (S : Z -> Prop) (m r : option Z) : Prop :=
+  (forall x, S x -> exists v, r = Some v /\ v <= x)
+  /\ (forall a, m = Some a -> exists v, r = Some v /\ v <= a)
+  /\ (forall v, r = Some v -> m = Some v \/ S v).
+
+Definition fs_step (cc : list bool) (m' : option Z) (jx : nat * Z) : option Z :=
+  let (j, x) := jx in
+  if nth j cc false then m'
+  else match m' with
+       | None => Some x
+       | Some v => if Z.ltb x v then Some x else m'
+       end.
+
+Definition fs_inner (cc : list bool) (l : list (nat * Z)) (m : option Z) : option Z :=
+  fold_left (fs_step cc) l m.
+
+Lemma fs_step_some : forall cc m k x a, m = Some a -> exists a', fs_step cc m (k, x) = Some a' /\ a' <= a.
+Proof.
+  intros cc m k x a ->. simpl. destruct (nth k cc false); [exists a; split; [reflexivity | lia]|].
+  destruct (Z.ltb_spec x a); [exists x | exists a]; split; try reflexivity; lia.
+Qed.
+
+Lemma fs_step_uncov : forall cc m k x, nth k cc false = false -> exists a', fs_step cc m (k, x) = Some a' /\ a' <= x.
+Proof.
+  intros cc m k x H. simpl. rewrite H. destruct m as [a|]; [|exists x; split; [reflexivity | lia]].
+  destruct (Z.ltb_spec x a); [exists x | exists a]; split; try reflexivity; lia.
+Qed.
+
+Lemma fs_step_inv : forall cc m k x v, fs_step cc m (k, x) = Some v -> m = Some v \/ (nth k cc false = false /\ v = x).
+Proof.
+  intros cc m k x v H. simpl in H. destruct (nth k cc false); [left; exact H|].
+  destruct m as [a|].
+  - destruct (Z.ltb x a); [right | left]; inversion H; auto.
+  - right. inversion H; auto.
+Qed.
 
 Lemma fs_inner_spec : forall cc row k m,
-  let r := fs_inner cc (combine (seq k (length row)) row) m in
-  r <= m
-  /\ (forall j, (j < length row)%nat -> nth (k + j) cc false = false -> r <= nth j row 0)
-  /\ (r = m \/ exists j, (j < length row)%nat /\ nth (k + j) cc false = false /\ r = nth j row 0).
+  fs_ok (fun x => exists j, (j < length row)%nat /\ nth (k + j) cc false = false /\ x = nth j row 0)
+        m (fs_inner cc (combine (seq k (length row)) row) m).
 Proof.
   induction row as [|x row IH]; intros k m; simpl.
-  - split; [lia|]. split; [intros; lia | left; reflexivity].
-  - set (m1 := if negb (nth k cc false) && Z.ltb x m then x else m).
-    destruct (IH (S k) m1) as [H1 [H2 H3]]. fold (fs_inner cc (combine (seq (S k) (length row)) row) m1).
-    assert (M1 : m1 <= m) by (unfold m1; destruct (nth k cc false); simpl; [lia | destruct (Z.ltb_spec x m); lia]).
-    split; [lia|]. split.
-    + intros [|j] Hj Hc.
-      * rewrite Nat.add_0_r in Hc. assert (m1 <= x); [|lia].
-        unfold m1. rewrite Hc. simpl. destruct (Z.ltb_spec x m); lia.
-      * apply H2; [lia|]. replace (S k + j)%nat with (k + S j)%nat by lia. exact Hc.
-    + destruct H3 as [E|[j [Hj [Hc E]]]].
-      * unfold m1 in E. destruct (nth k cc false) eqn:Ck; simpl in E; [left; exact E|].
-        destruct (Z.ltb_spec x m); [|left; exact E].
-        right. exists 0%nat. split; [lia|]. split; [rewrite Nat.add_0_r; exact Ck | exact E].
-      * right. exists (S j). split; [lia|]. split; [|exact E]. replace (k + S j)%nat with (S k + j)%nat by lia. exact Hc.
+  - split; [intros y [j [Hj _]]; lia|]. split; [intros a ->; exists a; split; [reflexivity | lia] | intros v ->; left; reflexivity].
+  - fold (fs_inner cc (combine (seq (S k) (length row)) row) (fs_step cc m (k, x))).
+    destruct (IH (S k) (fs_step cc m (k, x))) as [H1 [H2 H3]].
+    split; [|split].
+    + intros y [[|j] [Hj [Hc E]]].
+      * rewrite Nat.add_0_r in Hc. simpl in E. subst y.
+        destruct (fs_step_uncov cc m k x Hc) as [a' [E1 L1]].
+        destruct (H2 a' E1) as [v [E2 L2]]. exists v. split; [exact E2 | lia].
+      * apply H1. exists j. split; [lia|]. split; [|exact E].
+        replace (S k + j)%nat with (k + S j)%nat by lia. exact Hc.
+    + intros a Ha. destruct (fs_step_some cc m k x a Ha) as [a' [E1 L1]].
+      destruct (H2 a' E1) as [v [E2 L2]]. exists v. split; [exact E2 | lia].
+    + intros v Hv. destruct (H3 v Hv) as [E|[j [Hj [Hc E]]]].
+      * destruct (fs_step_inv cc m k x v E) as [E'|[Hc E']]; [left; exact E'|].
+        right. exists 0%nat. split; [lia|]. split; [rewrite Nat.add_0_r; exact Hc | exact E'].
+      * right. exists (S j). split; [lia|]. split; [|exact E].
+        replace (k + S j)%nat with (S k + j)%nat by lia. exact Hc.
 Qed.
 
-Definition fs_outer (rc cc : list bool) (l : list (nat * list Z)) (m : Z) : Z :=
-  fold_left (fun (m : Z) (irow : nat * list Z) => let (i, row) := irow in
-               if nth i rc false then m else fs_inner cc (combine (seq 0 (length row)) row) m) l m.
+Definition fs_ostep (rc cc : list bool) (m : option Z) (irow : nat * list Z) : option Z :=
+  let (i, row) := irow in
+  if nth i rc false then m else fs_inner cc (combine (seq 0 (length row)) row) m.
+
+Definition fs_outer (rc cc : list bool) (l : list (nat * list Z)) (m : option Z) : option Z :=
+  fold_left (fs_ostep rc cc) l m.
 
 Lemma fs_outer_spec : forall rc cc rows k m,
-  let r := fs_outer rc cc (combine (seq k (length rows)) rows) m in
-  r <= m
-  /\ (forall i j, (i < length rows)%nat -> (j < length (nth i rows []))%nat ->
-        nth (k + i) rc false = false -> nth j cc false = false -> r <= nth j (nth i rows []) 0)
-  /\ (r = m \/ exists i j, (i < length rows)%nat /\ (j < length (nth i rows []))%nat /\
-        nth (k + i) rc false = false /\ nth j cc false = false /\ r = nth j (nth i rows []) 0).
+  fs_ok (fun x => exists i j, (i < length rows)%nat /\ (j < length (nth i rows []))%nat /\
+                   nth (k + i) rc false = false /\ nth j cc false = false /\ x = nth j (nth i rows []) 0)
+        m (fs_outer rc cc (combine (seq k (length rows)) rows) m).
 Proof.
   induction rows as [|row rows IH]; intros k m; simpl.
-  - split; [lia|]. split; [intros; lia | left; reflexivity].
-  - set (m1 := if nth k rc false then m else fs_inner cc (combine (seq 0 (length row)) row) m).
-    destruct (IH (S k) m1) as [H1 [H2 H3]]. fold (fs_outer rc cc (combine (seq (S k) (length rows)) rows) m1).
+  - split; [intros y [i [j [Hi _]]]; lia|]. split; [intros a ->; exists a; split; [reflexivity | lia] | intros v ->; left; reflexivity].
+  - fold (fs_outer rc cc (combine (seq (S k) (length rows)) rows) (fs_ostep rc cc m (k, row))).
+    destruct (IH (S k) (fs_ostep rc cc m (k, row))) as [H1 [H2 H3]].
     destruct (fs_inner_spec cc row 0 m) as [I1 [I2 I3]].
-    assert (M1 : m1 <= m) by (unfold m1; destruct (nth k rc false); lia).
-    split; [lia|]. split.
-    + intros [|i] j Hi Hj Hr Hc.
-      * rewrite Nat.add_0_r in Hr. assert (m1 <= nth j row 0); [|lia].
-        unfold m1. rewrite Hr. apply I2; [exact Hj | exact Hc].
-      * apply H2; try lia; auto. replace (S k + i)%nat with (k + S i)%nat by lia. exact Hr.
-    + destruct H3 as [E|[i [j [Hi [Hj [Hr [Hc E]]]]]]].
-      * unfold m1 in E. destruct (nth k rc false) eqn:Rk; [left; exact E|]. unfold m1; cbv iota.
-        destruct I3 as [E'|[j [Hj [Hc E']]]]; [left; lia|].
+    split; [|split].
+    + intros y [[|i] [j [Hi [Hj [Hr [Hc E]]]]]].
+      * rewrite Nat.add_0_r in Hr. simpl in Hj, E.
+        destruct (I1 y) as [a' [E1 L1]]; [exists j; auto|].
+        assert (E0 : fs_ostep rc cc m (k, row) = Some a') by (simpl; rewrite Hr; exact E1).
+        destruct (H2 a' E0) as [v [E2 L2]]. exists v. split; [exact E2 | lia].
+      * apply H1. exists i, j. simpl in Hj, E. split; [lia|]. split; [exact Hj|].
+        split; [replace (S k + i)%nat with (k + S i)%nat by lia; exact Hr|]. split; [exact Hc | exact E].
+    + intros a Ha.
+      assert (X : exists a', fs_ostep rc cc m (k, row) = Some a' /\ a' <= a).
+      { simpl. destruct (nth k rc false); [exists a; split; [exact Ha | lia] | apply I2; exact Ha]. }
+      destruct X as [a' [E1 L1]]. destruct (H2 a' E1) as [v [E2 L2]]. exists v. split; [exact E2 | lia].
+    + intros v Hv. destruct (H3 v Hv) as [E|[i [j [Hi [Hj [Hr [Hc E]]]]]]].
+      * simpl in E. destruct (nth k rc false) eqn:Rk; [left; exact E|].
+        destruct (I3 v E) as [E'|[j [Hj [Hc E']]]]; [left; exact E'|].
         right. exists 0%nat, j. split; [lia|]. split; [exact Hj|]. split; [rewrite Nat.add_0_r; exact Rk|].
-        split; [exact Hc | lia].
-      * right. exists (S i), j. split; [lia|]. split; [exact Hj|]. split; [replace (k + S i)%nat with (S k + i)%nat by lia; exact Hr|].
-        split; [exact Hc | exact E].
+        split; [exact Hc | exact E'].
+      * right. exists (S i), j. split; [lia|]. split; [exact Hj|].
+        split; [replace (k + S i)%nat with (S k + i)%nat by lia; exact Hr|]. split; [exact Hc | exact E].
 Qed.
 
-Lemma find_smallest_spec : forall n s, wf n s ->
-  let m := zfind_smallest s in
-  m <= zmaxsize
-  /\ (forall i j, (i < n)%nat -> (j < n)%nat -> rcov s i = false -> ccov s j = false -> m <= gC s i j)
-  /\ (m = zmaxsize \/ exists i j, (i < n)%nat /\ (j < n)%nat /\ rcov s i = false /\ ccov s j = false /\ m = gC s i j).
+Definition zfind_smallest_opt : st -> option Z := find_smallest_opt Z Z.ltb.
+
+Lemma find_smallest_opt_spec : forall n s, wf n s ->
+  (forall i j, (i < n)%nat -> (j < n)%nat -> rcov s i = false -> ccov s j = false ->
+     exists v, zfind_smallest_opt s = Some v /\ v <= gC s i j)
+  /\ (forall v, zfind_smallest_opt s = Some v ->
+        exists i j, (i < n)%nat /\ (j < n)%nat /\ rcov s i = false /\ ccov s j = false /\ v = gC s i j).
 Proof.
   intros n s [SC _].
-  destruct (fs_outer_spec (sRC s) (sCC s) (sC s) 0 zmaxsize) as [H1 [H2 H3]].
-  change (fs_outer (sRC s) (sCC s) (combine (seq 0 (length (sC s))) (sC s)) zmaxsize) with (zfind_smallest s) in *.
-  pose proof SC as [L _].
-  simpl. split; [exact H1|]. split.
-  - intros i j Hi Hj Hr Hc. apply H2; auto; try lia. rewrite (sq_row_len n _ i SC Hi). exact Hj.
-  - destruct H3 as [E|[i [j [Hi [Hj [Hr [Hc E]]]]]]]; [left; exact E|].
-    right. exists i, j. rewrite L in Hi. rewrite (sq_row_len n _ i SC Hi) in Hj. auto.
+  destruct (fs_outer_spec (sRC s) (sCC s) (sC s) 0 None) as [H1 [_ H3]].
+  change (fs_outer (sRC s) (sCC s) (combine (seq 0 (length (sC s))) (sC s)) None) with (zfind_smallest_opt s) in *.
+  pose proof SC as [L _]. split.
+  - intros i j Hi Hj Hr Hc. apply H1. exists i, j. split; [lia|].
+    split; [rewrite (sq_row_len n _ i SC Hi); exact Hj|]. auto.
+  - intros v Hv. destruct (H3 v Hv) as [E|[i [j [Hi [Hj [Hr [Hc E]]]]]]]; [discriminate|].
+    exists i, j. rewrite L in Hi. rewrite (sq_row_len n _ i SC Hi) in Hj. auto.
+Qed.
+
+Lemma zfind_smallest_unfold : forall s,
+  zfind_smallest s = match zfind_smallest_opt s with None => zmaxsize | Some v => v end.
+Proof. reflexivity. Qed.
+
+(* lower bound; attained unless nothing is uncovered (then sys.maxsize); attained whenever a cell is uncovered *)
+Lemma find_smallest_spec : forall n s, wf n s ->
+  let m := zfind_smallest s in
+  (forall i j, (i < n)%nat -> (j < n)%nat -> rcov s i = false -> ccov s j = false -> m <= gC s i j)
+  /\ (m = zmaxsize \/ exists i j, (i < n)%nat /\ (j < n)%nat /\ rcov s i = false /\ ccov s j = false /\ m = gC s i j)
+  /\ ((exists i j, (i < n)%nat /\ (j < n)%nat /\ rcov s i = false /\ ccov s j = false) ->
+      exists i j, (i < n)%nat /\ (j < n)%nat /\ rcov s i = false /\ ccov s j = false /\ m = gC s i j).
+Proof.
+  intros n s W. destruct (find_smallest_opt_spec n s W) as [H1 H2]. simpl.
+  rewrite zfind_smallest_unfold. split; [|split].
+  - intros i j Hi Hj Hr Hc. destruct (H1 i j Hi Hj Hr Hc) as [v [E L]]. rewrite E. exact L.
+  - destruct (zfind_smallest_opt s) as [v|]; [right; apply H2; reflexivity | left; reflexivity].
+  - intros [i [j [Hi [Hj [Hr Hc]]]]]. destruct (H1 i j Hi Hj Hr Hc) as [v [E _]]. rewrite E. apply H2. exact E.
 Qed.
 
 (* ---------- step 6 ---------- *)
@@ -287,7 +348,7 @@ Lemma step6_P : forall n M0 s s', P4 n M0 s -> zstep6 s = Some s' -> P4 n M0 s'.
 Proof.
   intros n M0 s s' [B [SCV PO]] H.
   pose proof (b_wf _ _ _ B) as W. pose proof W as [SC [SM [Lr Lc]]].
-  destruct (find_smallest_spec n s W) as [F1 [F2 F3]]. set (m := zfind_smallest s) in *.
+  destruct (find_smallest_spec n s W) as [F2 [F3 F4]]. set (m := zfind_smallest s) in *.
   assert (Mnn : 0 <= m).
   { destruct F3 as [E|[i [j [Hi [Hj [_ [_ E]]]]]]]; [rewrite E; unfold zmaxsize; lia|].
     rewrite E. apply (b_nonneg _ _ _ B); assumption. }
